@@ -28,7 +28,8 @@ SYNC_CALLS = ("cudaStreamSynchronize", "cudaDeviceSynchronize", "cudaEventSynchr
 
 
 def bounds(tier: str) -> Dict[str, Any]:
-    return dict(L_ops=2 if tier == "quick" else 3, L_flat=3 if tier == "quick" else 4,
+    return dict(L_ops=2 if tier == "quick" else "2 under 8 profiles + 3 (exactly 3 actions) under 2 profiles",
+                L_flat=3 if tier == "quick" else "3 under 8 profiles + 4 under 2 profiles",
                 profiles=4 if tier == "quick" else 8, tie_max_dev=0 if tier == "quick" else 1, chunk=8)
 
 
